@@ -9,7 +9,7 @@ RULE = ("operation sequences over a pool of 3 names and 3 definitions: every seq
         "rendering, getfilter content) is compared with a reference ordered uniquely-named list and with the Lean list model; "
         "non-trivial = sequence with a repeat (disable twice, collision, boundary move)")
 
-NAMES = ["a", "b", "c"]
+NAMES = ["a", "b", ""]      # the empty string is a name like any other (and the falsy one)
 
 
 def definition(i):
